@@ -78,11 +78,14 @@ impl Property for C02 {
     }
     fn strategy(&self, _tier: Tier) -> BoxedStrategy<Case> {
         (
-            prop_oneof![3 => robot_catalogue(DofChoice::Six), 5 => robot_realistic(DofChoice::Six), 2 => robot_negative(DofChoice::Six)],
+            prop_oneof![3 => robot_catalogue(DofChoice::Six), 5 => robot_realistic(DofChoice::Six), 2 => robot_negative(DofChoice::Six), 2 => robot_zeroed(DofChoice::Six)],
             prop_oneof![8 => joints_uniform(), 1 => joints_wide()],
-            prop_oneof![3 => Just(None), 1 => robot_realistic(DofChoice::Six).prop_map(Some)],
+            other_robot(DofChoice::Six, false),
         )
-            .prop_map(|(robot, j, other)| Case { robot, j, other })
+            .prop_map(|(robot, j, other)| {
+                let other = resolve_other(&robot, other, false);
+                Case { robot, j, other }
+            })
             .boxed()
     }
     fn check(&self, c: &Case, ctx: &mut Ctx) -> Res {
